@@ -684,3 +684,263 @@ def c07(run):
             run.violation("IBAN(text, validate_bban=True)", [i, "method " + str(algo)], a,
                           "accepted" if want is True else "InvalidBBANChecksum" if want is False else "either",
                           "dispatch bank code -> method -> published rule", op=f)
+
+
+# --------------------------------------------------------------------------- C12
+def expected_lookup(entries, cc, code):
+    """Independent reading of the property for one (country, bank code) pair."""
+    listed = [e for e in entries if e["country_code"] == cc and e["bank_code"] == code] if cc and code else []
+    if not listed:
+        return None, None
+    cands = [e["bic"] for e in listed if e["primary"] and e["bic"]] + \
+            [e["bic"] for e in listed if not e["primary"] and e["bic"]]
+    if not cands:
+        return cands, None
+    eight = [c for c in cands if len(c) == 8]
+    xxx = [c for c in cands if c[8:11] == "XXX"]
+    chosen = max(eight) if eight else max(xxx) if xxx else cands[0]
+    return cands, chosen
+
+
+@prop("C12",
+      rule="(country, bank code) keys of the bundled registry (quick: a sample per country, thorough: all "
+           "22,753), unlisted pairs, all/sampled registry BICs (reverse lookup), IBANs around listed and "
+           "unlisted banks; plus synthetic registries (ties, empty and null BICs, empty bank codes, "
+           "non-primary-first order) installed into the library through its own index builder; "
+           "non-trivial = distinct lookup",
+      note="theorems are for every registry; `RegistryBicsOk` for the bundled one is a C17 obligation")
+def c12(run):
+    from realops import registry_lines
+    S = Streams(run.seed * 1000 + 12)
+    r = S.r
+    ops, meta = [], []
+    by_cc = {}
+    for e in S.banks:
+        by_cc.setdefault(e["country_code"], []).append(e)
+    for cc, es in sorted(by_cc.items()):
+        ops += registry_lines(es)
+        meta += [None] * (len(es) + 1)
+        codes = sorted({e["bank_code"] for e in es})
+        if run.tier != "thorough":
+            codes = r.sample(codes, min(len(codes), 40))
+        else:
+            run.exhaustive = True
+        for code in codes + ["", "99999999", codes[0] + "0" if codes else "1"]:
+            for op in ("bic.candidates", "bic.from_bank_code"):
+                ops.append([op, hx(cc), hx(code)])
+                meta.append((es, cc, code))
+        if cc in S.table:
+            for _ in range(run.scale(6, 40)):
+                i = S.iban(cc, with_bank=r.random() < 0.8)
+                ops.append(["bban.bank", hx(cc), hx(i[4:])])
+                meta.append(None)
+            # keys whose first-listed entry is not the one a primary-first ordering would put first:
+            # lookups must not disturb each other (bank -> bic -> bank)
+            firsts = {}
+            for e in es:
+                firsts.setdefault(e["bank_code"], []).append(e)
+            tricky = [c for c, l in firsts.items() if c and not l[0]["primary"] and any(x["primary"] for x in l)]
+            spec = S.table[cc]
+            if "positions" in spec:
+                for code in tricky[: run.scale(25, 10 ** 6)]:
+                    b = list(S.bban(cc).upper())
+                    pos = 0
+                    for comp in spec.get("bic_lookup_components", ["bank_code"]):
+                        s_, e_ = spec["positions"].get(comp, [0, 0])
+                        b[s_:e_] = list(code[pos:pos + e_ - s_].ljust(e_ - s_, "0"))
+                        pos += e_ - s_
+                    b = "".join(b)[: spec["bban_length"]]
+                    for op in (["bban.bank", hx(cc), hx(b)], ["bic.candidates", hx(cc), hx(code)],
+                               ["bic.from_bank_code", hx(cc), hx(code)], ["bban.bank", hx(cc), hx(b)]):
+                        ops.append(op)
+                        meta.append(("bank", firsts[code][0]) if op[0] == "bban.bank" else (es, cc, code))
+    reals, _ = run.correspond("bundled registry", ops)
+    for f, m, a in zip(ops, meta, reals):
+        if isinstance(m, tuple) and m[0] == "bank":
+            e = m[1]
+            exp = "ok " + " ".join([hx(e["bank_code"]), "None" if e["bic"] is None else hx(e["bic"]),
+                                    hx(e["name"]), hx(e["short_name"])])
+            if not a.startswith(exp + " | "):
+                run.violation("iban.bank", [unhx(f[1]), unhx(f[2])], a, exp + " | …",
+                              "bank entry must be the first listed one, whatever was looked up before",
+                              kind="history", op=f)
+    meta = [None if (isinstance(m, tuple) and m[0] == "bank") else m for m in meta]
+    check_lookups(run, ops, meta, reals)
+    # reverse lookups: registry restricted to the entries of the sampled BICs (+ distractors)
+    bics = sorted({e["bic"] for e in S.banks if e["bic"]})
+    sample = bics if run.tier == "thorough" else r.sample(bics, 300)
+    want = set(sample)
+    sub = [e for e in S.banks if e["bic"] in want or r.random() < 0.01]
+    ops2 = registry_lines(sub) + [["bic.lookup", hx(b)] for b in sample + ["GENODEM1XXX", "AAAADEFF"]]
+    reals2, _ = run.correspond("reverse lookup", ops2)
+    for f, a in zip(ops2, reals2):
+        if f[0] != "bic.lookup":
+            continue
+        b = unhx(f[1])
+        es = [e for e in S.banks if e["bic"] == b]
+        exp = "ok [" + ",".join(hx(x) for x in sorted({e["bank_code"] for e in es})) + "] [" + \
+              ",".join(hx(x) for x in sorted({e["name"] for e in es})) + "] [" + \
+              ",".join(hx(x) for x in sorted({e["short_name"] for e in es})) + "] " + ("T" if es else "F")
+        if a != exp:
+            run.violation("bic.domestic_bank_codes/bank_names/exists", [b], a, exp, "reverse lookup vs registry",
+                          op=f)
+    # synthetic registries through the library's own index builder
+    ops3, meta3 = [], []
+    bic_pool = ["GENODEM1GLS", "GENODEM1", "GENODEM1XXX", "DEUTDEFF", "DEUTDEFFXXX", "DEUTDEFF500", "MARKDEF1100",
+                "", None, "COBADEFF", "COBADEFFXXX"]
+    for _ in range(run.scale(25, 400)):
+        entries = []
+        for _ in range(r.randint(1, 9)):
+            entries.append({"country_code": r.choice(["DE", "DE", "AT", ""]), "bank_code": r.choice(["1", "2", "", "10"]),
+                            "bic": r.choice(bic_pool), "primary": r.random() < 0.5,
+                            "name": r.choice(["A", "B", "C"]), "short_name": r.choice(["a", "b"])})
+        ops3.append(["reg.synthetic"])
+        meta3.append(None)
+        for e in entries:
+            ops3.append(registry_lines([e])[1])
+            meta3.append(None)
+        for cc in ("DE", "AT", ""):
+            for code in ("1", "2", "10", ""):
+                for op in ("bic.candidates", "bic.from_bank_code"):
+                    ops3.append([op, hx(cc), hx(code)])
+                    meta3.append((entries, cc, code))
+        for b in ("GENODEM1", "DEUTDEFF", "GENODEM1GLS", ""):
+            ops3.append(["bic.lookup", hx(b)])
+            meta3.append(None)
+    ops3.append(["reg.bundled"])
+    meta3.append(None)
+    try:
+        reals3, _ = run.correspond("synthetic registries", ops3)
+    finally:
+        real(["reg.bundled"])
+    check_lookups(run, ops3, meta3, reals3)
+
+
+def check_lookups(run, ops, meta, reals):
+    for f, m, a in zip(ops, meta, reals):
+        if m is None:
+            continue
+        entries, cc, code = m
+        cands, chosen = expected_lookup(entries, cc, code)
+        if f[0] == "bic.candidates":
+            exp = "err InvalidBankCode" if cands is None else "ok [" + ",".join(hx(c) for c in cands) + "]"
+        else:
+            exp = "err InvalidBankCode" if chosen is None else "ok " + hx(chosen)
+        if a != exp:
+            run.violation(f[0], [cc, code], a, exp, "lookup vs the property's reading of the registry entries",
+                          op=f, registry=[{k: e.get(k) for k in ("country_code", "bank_code", "bic", "primary")}
+                                          for e in entries if e["country_code"] == cc and e["bank_code"] == code][:12])
+
+
+# --------------------------------------------------------------------------- C18
+def ref_merge(l, r):
+    """The property's reading: deep, later-wins."""
+    out = dict(l)
+    for k, v in r.items():
+        if k in l and isinstance(l[k], dict) and isinstance(v, dict):
+            out[k] = ref_merge(l[k], v)
+        else:
+            out[k] = v
+    return out
+
+
+def rand_doc(r, depth, keys="abck"):
+    k = r.random()
+    if depth <= 0 or k < 0.35:
+        return r.choice([None, True, False, 0, 1, 7, -3, "x", "", "DE", [1, 2], [], ["a"]])
+    return {kk: rand_doc(r, depth - 1, keys) for kk in r.sample(keys, r.randint(0, len(keys)))}
+
+
+@prop("C18",
+      rule="random pairs of JSON documents (nested dicts over a small key alphabet so that conflicts, "
+           "dict-vs-scalar both ways, disjoint and identical keys all occur) through merge_dicts; random v2 "
+           "documents through parse_v2; random file sets (1-4 files, adversarial names around '.', '-', case and "
+           "'v2' stems, dict and list files) through registry.get on a temporary directory; inputs checked "
+           "unmodified; non-trivial = distinct case with at least one common key / at least two files",
+      note="merge laws proved for all documents; composition of the live files proved equal to the live "
+           "effective table by kernel evaluation; json.load, Path.glob and sorted() are modelled")
+def c18(run):
+    from realops import jenc
+    S = Streams(run.seed * 1000 + 18)
+    r = S.r
+    ops, meta = [], []
+    for _ in range(run.scale(1500, 60000)):
+        l, rr = rand_doc(r, 4), rand_doc(r, 4)
+        if not isinstance(l, dict) or not isinstance(rr, dict):
+            continue
+        ops.append(["json.merge", jenc(l), jenc(rr)])
+        meta.append(("merge", l, rr))
+    for _ in range(run.scale(300, 5000)):
+        entries = []
+        for _ in range(r.randint(0, 4)):
+            e = {"country_code": "DK", "bic": r.choice(["", "NDEADKKK"]), "name": "n",
+                 "codes": [r.choice(["0040", "0041", "1"]) for _ in range(r.randint(0, 3))]}
+            if r.random() < 0.3:
+                e["primary"] = r.choice([True, False])
+            if r.random() < 0.2:
+                e["code"] = "old"
+            if r.random() < 0.1:
+                del e["codes"]
+            entries.append(e)
+        doc = {"entries": entries, "expand_from": "codes", "expand_into": "code"}
+        if r.random() < 0.05:
+            del doc["expand_into"]
+        ops.append(["json.parse_v2", jenc(doc)])
+        meta.append(("v2", doc))
+    names = ["a.json", "b.json", "a-b.json", "a.b.json", "A.json", "overwrite.json", "overwrite-local.json",
+             "generated.json", "z.v2.json", "m.v2.json", "v2.json", "av2.json", "b.v3.json", "0.json", "_x.json"]
+    for _ in range(run.scale(400, 8000)):
+        kind = r.random()
+        fs = {}
+        for fn in r.sample(names, r.randint(1, 4)):
+            stem = fn[:-5]
+            if stem.endswith("v2"):
+                fs[fn] = {"entries": [{"c": "DK", "codes": [r.choice(["1", "2"]) for _ in range(r.randint(0, 2))]}],
+                          "expand_from": "codes", "expand_into": "code"}
+            elif kind < 0.6:
+                d = rand_doc(r, 3)
+                fs[fn] = d if isinstance(d, dict) else {"k": d}
+            else:
+                fs[fn] = [{"c": r.choice("xy"), "n": r.randint(0, 3)} for _ in range(r.randint(0, 3))]
+        ops.append(["registry.get"] + [hx(fn) + "=" + jenc(d) for fn, d in fs.items()])
+        meta.append(("get", fs))
+    # the non-associativity pattern: dict, then scalar, then dict
+    for mid in (None, 1, "x", []):
+        fs = {"a.json": {"k": {"x": 1}}, "b.json": {"k": mid}, "c.json": {"k": {"y": 2}}}
+        ops.append(["registry.get"] + [hx(fn) + "=" + jenc(d) for fn, d in fs.items()])
+        meta.append(("get", fs))
+    reals, _ = run.correspond("registry", ops,
+                              lambda f, a: f[0] != "json.merge" or bool(set(jdec_keys(f[1])) & set(jdec_keys(f[2]))))
+    for f, m, a in zip(ops, meta, reals):
+        if m[0] == "merge":
+            want = "ok " + jenc(ref_merge(m[1], m[2]))
+            if a != want:
+                run.violation("registry.merge_dicts", [m[1], m[2]], a, want, "deep later-wins merge", op=f)
+        elif m[0] == "get":
+            fs = m[1]
+            order = sorted(fs)
+            docs = []
+            for fn in order:
+                d = fs[fn]
+                if fn[:-5].endswith("v2"):
+                    d = [{**{k: v for k, v in e.items() if k != "codes"}, **({} if "primary" in e else {"primary": False}),
+                          "code": c} for e in d["entries"] for c in e["codes"]]
+                docs.append(d)
+            if all(isinstance(d, dict) for d in docs):
+                exp = docs[0]
+                for d in docs[1:]:
+                    exp = ref_merge(exp, d)
+                want = "ok " + jenc(exp)
+            elif all(isinstance(d, list) for d in docs):
+                want = "ok " + jenc([x for d in docs for x in d])
+            else:
+                continue     # mixed dict/list directories: outside the property
+            if a != want:
+                run.violation("registry.get(directory)", [{k: v for k, v in fs.items()}], a, want,
+                              "files composed in file-name order", kind="config", op=f)
+
+
+def jdec_keys(tok):
+    from realops import jdec
+    d = jdec(tok)
+    return list(d) if isinstance(d, dict) else []
